@@ -29,7 +29,8 @@ COPY_CALLS = re.compile(r"^<.* as core::clone::Clone>::clone$|^alloc::str::<impl
                         r"^alloc::string::String::(from_utf8_lossy|from_utf8|from_utf8_unchecked|into_bytes)$|"
                         r"^alloc::borrow::Cow::into_owned$|^<.* as core::convert::(From|Into)<.*>>::(from|into)$|"
                         r"^core::result::Result::(unwrap|unwrap_or_default|expect)$|^alloc::slice::<impl alloc::borrow::ToOwned for \[T\]>::to_owned$|"
-                        r"^core::str::converts::from_utf8$|^<.* as alloc::borrow::ToOwned>::to_owned$")
+                        r"^core::str::converts::from_utf8$|^<.* as alloc::borrow::ToOwned>::to_owned$|"
+                        r"^alloc::string::FromUtf8Error::(as_bytes|into_bytes)$")
 APPEND_CALLS = re.compile(r"^alloc::string::String::push_str$|^alloc::vec::Vec::(extend_from_slice|append)$|"
                           r"^<alloc::(string::String|vec::Vec<.*>) as core::iter::traits::collect::Extend<.*>>::extend$|"
                           r"^<alloc::string::String as core::ops::arith::AddAssign<&str>>::add_assign$")
@@ -57,6 +58,8 @@ class State:
         self.empty_reads = set()
         self.selfs = set()      # locals that alias `self` (after inlining a helper method the callee's self is a fresh local)
         self.lastres = {}       # local holding the Option<&u8> returned by slice::last -> content tuple
+        self.splitres = {}      # local holding the result of split_last (Option / its (&u8, &[u8]) payload) -> (content list, level)
+        self.lastbyte = {}      # local holding the last byte of a buffer (by value) -> content tuple
         self.consts = {}        # bool local -> constant it was last assigned on this path
 
     def clone(self):
@@ -72,6 +75,8 @@ class State:
         s.empty_reads = set(self.empty_reads)
         s.selfs = set(self.selfs)
         s.lastres = dict(self.lastres)
+        s.splitres = dict(self.splitres)
+        s.lastbyte = dict(self.lastbyte)
         s.consts = dict(self.consts)
         return s
 
@@ -86,6 +91,9 @@ def _skey(fn, pl, st):
         return st.alias[l]
     if not flds:
         return ("l", l)
+    if flds == ["0"] and any(isinstance(e, dict) and e.get("d") in ("Ok", "Err", "Some") for e in pl["p"]):
+        # the payload of a wrapper around the content: `match String::from_utf8(bytes) { Ok(text) => .., Err(e) => e.as_bytes() .. }`
+        return st.alias.get(l, ("l", l))
     return None
 
 
@@ -316,6 +324,14 @@ def _walk(f, bb, st, onpath, outcomes, header, body, depth):
             last_mode = None
             if d["k"] in ("copy", "move") and d["pl"]["l"] in st.lastres and d["pl"]["p"] and d.get("ty") == "u8":
                 last_key, last_mode = st.lastres[d["pl"]["l"]], "byte"
+            elif d["k"] in ("copy", "move") and d.get("ty") == "u8" and not d["pl"]["p"] and d["pl"]["l"] in st.lastbyte:
+                last_key, last_mode = st.lastbyte[d["pl"]["l"]], "byte"
+            elif d["k"] in ("copy", "move") and d.get("ty") == "u8" and d["pl"]["l"] in st.splitres and \
+                    [e["f"] for e in d["pl"]["p"] if isinstance(e, dict) and "f" in e] == [0, 0][st.splitres[d["pl"]["l"]][1]:]:
+                last_key, last_mode = tuple(a for a in st.splitres[d["pl"]["l"]][0] if a[0] in ("C", "N")), "byte"
+            elif info and info[0] == "discr" and info[1] in st.splitres and st.splitres[info[1]][1] == 0:
+                st.lastres[info[1]] = tuple(a for a in st.splitres[info[1]][0] if a[0] in ("C", "N"))
+                last_key, last_mode = st.lastres[info[1]], "discr"
             elif info and info[0] == "discr" and info[1] in st.lastres:
                 last_key, last_mode = st.lastres[info[1]], "discr"
             known = st.consts.get(dl) if (dl is not None and not d["pl"]["p"] and d.get("ty") == "bool") else None
@@ -386,6 +402,31 @@ def _stmt(f, st, s, bb):
         key = _skey(f, rv["pl"], st)
         if dst_local is not None and key is not None:
             st.alias[dst_local] = key
+        return
+    if k == "use" and rv["op"].get("k") in ("copy", "move") and rv["op"]["pl"]["l"] in st.splitres and dst_local is not None:
+        v_, lvl = st.splitres[rv["op"]["pl"]["l"]]
+        path = [e["f"] for e in rv["op"]["pl"]["p"] if isinstance(e, dict) and "f" in e]
+        rest = [0, None][lvl:]          # fields still to go to reach the tuple
+        if lvl == 0 and path == [0]:
+            st.splitres[dst_local] = (v_, 1)
+            return
+        tail = path[1:] if lvl == 0 and path[:1] == [0] else (path if lvl == 1 else None)
+        if tail == [0]:
+            if rv["op"].get("ty") == "u8":
+                st.lastbyte[dst_local] = tuple(a for a in v_ if a[0] in ("C", "N"))
+            else:
+                st.splitres[dst_local] = (v_, 2)       # the &u8 itself
+            return
+        if tail == [1]:
+            st.store[("l", dst_local)] = list(v_) + [("-nl",)]     # the buffer without its last byte
+            st.alias.pop(dst_local, None)
+            return
+        if not path:
+            st.splitres[dst_local] = (v_, lvl)
+            return
+    if k == "use" and rv["op"].get("k") in ("copy", "move") and rv["op"]["pl"]["l"] in st.splitres and st.splitres[rv["op"]["pl"]["l"]][1] == 2 \
+            and dst_local is not None and rv["op"].get("ty") == "u8":
+        st.lastbyte[dst_local] = tuple(a for a in st.splitres[rv["op"]["pl"]["l"]][0] if a[0] in ("C", "N"))
         return
     if k == "use" or (k == "cast" and rv["ck"].startswith("PointerCoercion")):
         op = rv["op"]
@@ -534,6 +575,14 @@ def _call(f, st, t, bb):
         others = [a for a in sides if a not in lasts]
         if len(lasts) == 1 and len(others) == 1 and _is_some_newline(f, others[0]):
             st.boolinfo[dl] = ("nl", st.lastres[lasts[0]["pl"]["l"]], True)
+        return
+    if name == "core::slice::<impl [T]>::split_last":
+        # Option<(&u8, &[u8])>: the last byte and the buffer without it
+        k = akey(0)
+        if k is not None and dl is not None:
+            v = st.store.get(k)
+            if v is not None and v is not TOP:
+                st.splitres[dl] = (list(v), 0)
         return
     if name == "core::slice::<impl [T]>::last":
         k = akey(0)
